@@ -415,7 +415,7 @@ func c17round(c *core.Ctx) {
 	pool := []string{"doc", "a", "b", "c", "k", "id", "items", "entry"}
 	// large private Maps: encodings beyond 4 KiB / 64 KiB (and in 1/8 of the rounds 1 MiB) cross the buffer-growth and
 	// size-hint thresholds of the encoders; each goroutine encodes its own copy
-	bigN, bigBudget := []int{100, 1500, 1500, 2500}[r.Intn(4)], 24
+	bigN, bigBudget := []int{100, 1500, 1500, 2500, autoInt(r, 1024, 200000, 65536)/40 + 2}[r.Intn(5)], 24
 	if c.Index%8 == 3 {
 		bigN, bigBudget = 22000, 4
 	}
